@@ -41,21 +41,146 @@ def Counted (cn : Conn) : Bool :=
 
 def liveCount (s : St) : Nat := s.ids.countP fun c => Counted (s.conns c)
 
-/-! ### what a step of connection c's goroutine can change -/
+/-- in the read loop or in a request: the goroutine uses the socket -/
+def Active (cn : Conn) : Bool :=
+  match cn.pc with
+  | .loopTop | .gotRequest _ _ | .handling _ _ | .writing _ | .written => true
+  | _ => false
 
-theorem connStep_notStarted (cfg : Cfg) (s : St) (c : Nat) (h : (s.conns c).pc = .notStarted) : connStep cfg s c = s := by
-  simp [connStep, h]
+def InRequest (cn : Conn) : Bool :=
+  match cn.pc with
+  | .handling _ _ | .writing _ | .written => true
+  | _ => false
 
-/-- the goroutine's step rewrites only its own connection record and, at untrack, the counter -/
-theorem connStep_shape (cfg : Cfg) (s : St) (c : Nat) :
-    ∃ v k, connStep cfg s c = { (s.setC c v) with count := k } ∨ connStep cfg s c = s := by
-  unfold connStep
-  split
-  all_goals first
-    | exact ⟨default, 0, Or.inr rfl⟩
-    | (repeat' split) <;> first
-        | exact ⟨default, 0, Or.inr rfl⟩
-        | exact ⟨_, s.count, Or.inl rfl⟩
-        | exact ⟨_, _, Or.inl rfl⟩
+def Cleaned (cn : Conn) : Bool :=
+  match cn.pc with
+  | .cleanupUntrack | .cleanupCb | .done => true
+  | _ => false
+
+/-- a connection the server has not touched yet -/
+structure Fresh (cn : Conn) : Prop where
+  pc : cn.pc = .notStarted
+  open_ : cn.serverClosed = false
+  rej : cn.rejected = false
+  ref : cn.refused = false
+  cbs : cn.closeCbs = []
+  map : cn.inMap = false
+  st : cn.state = .idle
+  started : cn.started = []
+
+/-- per-connection invariant -/
+structure CInv (cfg : Cfg) (cn : Conn) : Prop where
+  cb_running : cn.pc ≠ .notStarted → cn.pc ≠ .done → cn.closeCbs = []
+  cb_done : cn.pc = .done → cn.closeCbs.length = (if cfg.onClose then 1 else 0)
+  cb_notStarted : cn.pc = .notStarted → cn.closeCbs.length = (if cfg.onClose = true ∧ cn.refused = true then 1 else 0)
+  rej : cn.rejected = true → cn.pc = .notStarted ∧ cn.refused = false ∧ cn.serverClosed = true
+  ref : cn.refused = true → cn.pc = .notStarted ∧ cn.serverClosed = true
+  busy : InRequest cn = true → cn.state = .busy
+  closedS : cn.state = .closedByShutdown → cn.serverClosed = true ∧ cn.inMap = false
+  closedBy : cn.serverClosed = true → Active cn = true → cn.state = .closedByShutdown
+  inmap : cn.inMap = true → Counted cn = true
+  notInMap : cn.pc ≠ .notStarted → cn.inMap = false → cn.serverClosed = true
+  cleaned : Cleaned cn = true → cn.serverClosed = true
+  flight : ∀ r ∈ cn.started, r ∈ cn.replied ∨ r ∈ cn.panicked ∨ (∃ k, cn.pc = .handling r k) ∨ cn.pc = .writing r
+
+theorem Fresh.cinv {cfg : Cfg} {cn : Conn} (h : Fresh cn) : CInv cfg cn where
+  cb_running := fun h1 _ => absurd h.pc h1
+  cb_done := fun h1 => by rw [h.pc] at h1; cases h1
+  cb_notStarted := fun _ => by simp [h.cbs, h.ref]
+  rej := fun h1 => by rw [h.rej] at h1; cases h1
+  ref := fun h1 => by rw [h.ref] at h1; cases h1
+  busy := fun h1 => by simp [InRequest, h.pc] at h1
+  closedS := fun h1 => by rw [h.st] at h1; cases h1
+  closedBy := fun h1 => by rw [h.open_] at h1; cases h1
+  inmap := fun h1 => by rw [h.map] at h1; cases h1
+  notInMap := fun h1 => absurd h.pc h1
+  cleaned := fun h1 => by simp [Cleaned, h.pc] at h1
+  flight := fun r hr => by rw [h.started] at hr; cases hr
+
+/-! ### the goroutine of a connection -/
+
+theorem connTrans_notStarted (cfg : Cfg) (a b d : Bool) (cn : Conn) (h : cn.pc = .notStarted) :
+    connTrans cfg a b d cn = (cn, 0) := by simp [connTrans, h]
+
+/-- a goroutine that has started never returns to `notStarted`, and never touches the flags the accept loop sets -/
+theorem connTrans_pc (cfg : Cfg) (a b d : Bool) (cn : Conn) (h : cn.pc ≠ .notStarted) :
+    (connTrans cfg a b d cn).1.pc ≠ .notStarted := by
+  unfold connTrans
+  cases hpc : cn.pc <;> simp only [] <;> (try exact absurd hpc h) <;> (repeat' split) <;> simp_all
+
+/-- accounting of one step of a goroutine: the counter changes exactly as `Counted` does -/
+theorem connTrans_counted (cfg : Cfg) (a b d : Bool) (cn : Conn) :
+    (connTrans cfg a b d cn).2 =
+      (if Counted (connTrans cfg a b d cn).1 then (1 : Int) else 0) - (if Counted cn then 1 else 0) := by
+  unfold connTrans
+  cases hpc : cn.pc <;> simp only [] <;> (repeat' split) <;> simp_all [Counted]
+
+theorem cinv_connTrans (cfg : Cfg) (a b d : Bool) (cn : Conn) (h : CInv cfg cn) :
+    CInv cfg (connTrans cfg a b d cn).1 := by
+  have h0 := h
+  obtain ⟨h1, h2, h3, h4, h5, h6, h7, h8, h9, h10, h11, h12⟩ := h
+  unfold connTrans
+  cases hpc : cn.pc <;> simp only [] <;> (repeat' split) <;> first
+    | exact h0
+    | (constructor <;> simp_all [InRequest, Active, Counted, Cleaned] <;> grind)
+
+/-- the goroutine removes its connection from the map only in trackConn(c, false), which needs the mutex -/
+theorem connTrans_inMap (cfg : Cfg) (a b d : Bool) (cn : Conn) :
+    ((connTrans cfg a b d cn).1.inMap = true → cn.inMap = true) ∧
+    (cn.inMap = true → (connTrans cfg a b d cn).1.inMap = true ∨ b = true) := by
+  unfold connTrans
+  cases hpc : cn.pc <;> simp only [] <;> (repeat' split) <;> simp_all
+
+/-! ### counting under a point update -/
+
+theorem countP_updC_notMem (l : List Nat) (f : Nat → Conn) (c : Nat) (v : Conn) (p : Conn → Bool) (h : c ∉ l) :
+    l.countP (fun i => p (updC f c v i)) = l.countP (fun i => p (f i)) := by
+  apply List.countP_congr
+  intro x hx
+  have : x ≠ c := fun e => h (e ▸ hx)
+  simp [updC, this]
+
+theorem countP_updC (l : List Nat) (hnd : l.Nodup) (f : Nat → Conn) (c : Nat) (v : Conn) (p : Conn → Bool) (hc : c ∈ l) :
+    ((l.countP (fun i => p (updC f c v i)) : Nat) : Int) =
+      (l.countP (fun i => p (f i)) : Nat) + ((if p v then (1 : Int) else 0) - (if p (f c) then 1 else 0)) := by
+  induction l with
+  | nil => cases hc
+  | cons a as ih =>
+    have hnd' := (List.nodup_cons.1 hnd)
+    by_cases hac : a = c
+    · subst hac
+      have h1 := countP_updC_notMem as f a v p hnd'.1
+      simp only [List.countP_cons, h1, updC_same]
+      split <;> split <;> simp <;> omega
+    · have hc' : c ∈ as := by
+        rcases List.mem_cons.1 hc with e | e
+        · exact absurd e.symm hac
+        · exact e
+      have := ih hnd'.2 hc'
+      simp only [List.countP_cons, updC_other _ _ _ _ hac]
+      split <;> simp <;> omega
+
+theorem liveCount_setC (s : St) (hnd : s.ids.Nodup) (c : Nat) (v : Conn) :
+    ((liveCount (s.setC c v) : Nat) : Int) =
+      liveCount s + (if c ∈ s.ids then ((if Counted v then (1 : Int) else 0) - (if Counted (s.conns c) then 1 else 0)) else 0) := by
+  unfold liveCount
+  by_cases hc : c ∈ s.ids
+  · simp only [hc, if_true, setC_ids]
+    exact countP_updC s.ids hnd s.conns c v Counted hc
+  · simp only [hc, if_false, setC_ids, Int.add_zero]
+    have := countP_updC_notMem s.ids s.conns c v Counted hc
+    simp only [St.setC]
+    rw [this]
+
+/-- a point update that keeps `Counted` keeps the number of live connections -/
+theorem liveCount_setC_same (s : St) (c : Nat) (v : Conn) (h : Counted v = Counted (s.conns c)) :
+    liveCount (s.setC c v) = liveCount s := by
+  unfold liveCount
+  simp only [setC_ids]
+  apply List.countP_congr
+  intro x _
+  by_cases hx : x = c
+  · subst hx; simp [h]
+  · simp [St.setC, updC, hx]
 
 end Modbus.Lemmas.ServerLife
